@@ -367,11 +367,13 @@ func regionsOf(kind string, msg []byte, blockSize int) (map[string][]int, error)
 			}
 		case p.tag == 3:
 			add("esk", p.framing...)
-			if len(bo) > 13+8 && msg[bo[1]] == 2 {
-				// encrypted 3DES session key: the low bit of every key octet is a DES parity bit; in the last CFB block a flipped
-				// ciphertext bit flips exactly that plaintext bit, so the equivalent key results ("eskslack" in the model)
-				add("esk", bo[:len(bo)-8]...)
-				add("eskslack", bo[len(bo)-8:]...)
+			if len(bo) > 13+9 && msg[bo[1]] == 2 {
+				// encrypted 3DES session key (cipher octet + 24 key octets, CFB with 8-octet blocks: 8+8+8+1): the low bit of every key
+				// octet is a DES parity bit.  A flipped ciphertext bit flips exactly that plaintext bit and garbles the NEXT block: in the
+				// last block (1 octet) nothing follows, in the block before it only one octet is garbled, which yields an equivalent key
+				// with probability 1/128 -- both are "eskslack" in the model (outcome not predicted)
+				add("esk", bo[:len(bo)-9]...)
+				add("eskslack", bo[len(bo)-9:]...)
 			} else {
 				add("esk", bo...)
 			}
@@ -737,6 +739,9 @@ func TestC44(t *testing.T) {
 			}
 		}
 	}
+	// ---- (2a) canonical text under chunked input (spec/CanonText.tla) and text-mode signatures through chunking readers
+	r.canonReplay(vutil.Env("VERIF_C44_CANON", ""))
+	r.textSignatures(keys)
 	// ---- (2b) session-key packets whose decrypted content is shorter than cipher octet + checksum (anyone holding the public key can make them)
 	r.shortSessionKey(keys)
 	// ---- (3) GnuPG in both directions
@@ -899,10 +904,120 @@ func (r *runner) gpg(keys []keyset, specs []mspec, thorough bool) {
 		r.out.Case("go-accepts|" + m.String())
 		o := consume(m.Kind, gm, plain, ring, plain)
 		if o.Class != "silent" {
-			det["observed"], det["detail"], det["msg"] = o.Class, o.Detail, fmt.Sprintf("%x", clip(gm, 2048))
+			// does GnuPG accept its own output?  (the machine is shared; a message gpg itself rejects says nothing about the package)
+			var gerr error
+			var gse string
+			switch m.Kind {
+			case "detached", "detachedtext":
+				_, gse, gerr = g.Run(nil, "--verify", of, pf)
+			case "sym", "symz":
+				_, gse, gerr = g.Run(nil, "--passphrase", passphrase, "--decrypt", of)
+			default:
+				_, gse, gerr = g.Run(nil, "--decrypt", of)
+			}
+			if gerr != nil || (isSigned(m.Kind) && !strings.Contains(gse, "Good signature")) {
+				r.cnt["gpg_output_rejected_by_gpg_itself"]++
+				r.out.Extra["c44_gpg_self_reject"] = m.String() + ": " + gse
+				continue
+			}
+			var kb bytes.Buffer
+			k.e.SerializePrivate(&kb, nil)
+			det["observed"], det["detail"], det["msg"], det["gpgOnItsOwnOutput"], det["throwawaySecretKey"] = o.Class, o.Detail, fmt.Sprintf("%x", clip(gm, 4096)), gse, fmt.Sprintf("%x", kb.Bytes())
 			r.viol("pgp-go-rejects-gpg:"+m.Kind, "a message produced by GnuPG with the same algorithms is not accepted (original data, no error, verified signature)", det)
 		} else {
 			r.cnt["go_accepts_gpg"]++
+		}
+	}
+	r.gpgTextMode(g, dir, keys, imported)
+}
+
+// gpgTextMode: text-mode signatures between GnuPG and the package with the text cut around every CR on the Go side.
+func (r *runner) gpgTextMode(g *pgpkit.GPG, dir string, keys []keyset, imported map[string]bool) {
+	var k keyset
+	for _, kk := range keys {
+		if imported[kk.kind] && (kk.kind == pgpkit.RSA || k.e == nil) {
+			k = kk
+		}
+	}
+	if k.e == nil {
+		return
+	}
+	ring := openpgp.EntityList{k.e}
+	fpr := pgpkit.Fingerprint(k.e)
+	chunkers := pgpkit.Chunkers(vutil.Seed())
+	for tn, txt := range crlfTexts() {
+		if tn == "big" && !vutil.Thorough() {
+			continue
+		}
+		// texts in which a CR directly precedes a CR LF line end or ends the text: GnuPG drops such CRs from the line, this package
+		// hashes them (finding C44-T1); they get their own signature so that every other text-mode difference is still reported
+		edge := bytes.Contains(txt, []byte("\r\r\n")) || bytes.HasSuffix(txt, []byte("\r"))
+		sigFor := func(s string) string {
+			if edge {
+				return "pgp-gpg-text-canonicalisation:cr-run-at-line-end"
+			}
+			return s
+		}
+		tf := filepath.Join(dir, "t_"+tn+".txt")
+		os.WriteFile(tf, txt, 0o600)
+		// Go signs while reading the text in pieces, gpg verifies
+		for _, sn := range []string{"afterCR", "seeded"} {
+			var b bytes.Buffer
+			if err := openpgp.DetachSignText(&b, k.e, chunkers[sn](txt), &packet.Config{DefaultHash: crypto.SHA256}); err != nil {
+				continue
+			}
+			sf := filepath.Join(dir, "t_"+tn+"_"+sn+".sig")
+			os.WriteFile(sf, b.Bytes(), 0o600)
+			r.out.Case("gpg-text-verify|" + tn + "|" + sn)
+			if _, se, err := g.Run(nil, "--verify", sf, tf); err != nil {
+				if _, se2, err2 := g.Run(nil, "--verify", sf, tf); err2 != nil {
+					r.viol(sigFor("pgp-gpg-rejects:detachedtext-chunked"), "GnuPG does not verify a text-mode detached signature made by DetachSignText from a chunked reader",
+						map[string]any{"text": tn, "reader": sn, "gpg": se2})
+				}
+				_ = se
+			} else {
+				r.cnt["gpg_accepts_go_text"]++
+			}
+		}
+		// gpg signs (detached, text mode), Go verifies through every chunker
+		sf := filepath.Join(dir, "g_"+tn+".sig")
+		if _, _, err := g.Run(nil, "--yes", "-o", sf, "-u", fpr, "--digest-algo", "SHA256", "--textmode", "--detach-sign", tf); err == nil {
+			sig, _ := os.ReadFile(sf)
+			for vn, mk := range chunkers {
+				r.out.Case("go-text-verify|" + tn + "|" + vn)
+				if _, err := openpgp.CheckDetachedSignature(ring, mk(txt), bytes.NewReader(sig)); err != nil {
+					r.viol(sigFor("pgp-go-rejects-gpg:detachedtext-chunked"), "a text-mode detached signature by GnuPG does not verify when the text is read in pieces: "+err.Error(),
+						map[string]any{"text": tn, "reader": vn})
+				} else {
+					r.cnt["go_accepts_gpg_text"]++
+				}
+			}
+		} else {
+			r.cnt["gpg_could_not_produce"]++
+		}
+		// gpg writes a text-mode one-pass signed message, Go reads it with small reads
+		mf := filepath.Join(dir, "g_"+tn+".gpg")
+		if _, _, err := g.Run(nil, "--yes", "-o", mf, "-u", fpr, "--digest-algo", "SHA256", "--compress-algo", "none", "--textmode", "--sign", tf); err == nil {
+			msg, _ := os.ReadFile(mf)
+			for _, rs := range []int{1, 7, 15, 4096} {
+				r.out.Case(fmt.Sprintf("go-text-message|%s|%d", tn, rs))
+				md, err := openpgp.ReadMessage(bytes.NewReader(msg), ring, nil, nil)
+				if err != nil {
+					r.viol("pgp-go-rejects-gpg:textmsg", "a text-mode signed message by GnuPG is not read: "+err.Error(), map[string]any{"text": tn})
+					break
+				}
+				buf := make([]byte, rs)
+				var rerr error
+				for rerr == nil {
+					_, rerr = md.UnverifiedBody.Read(buf)
+				}
+				if rerr != io.EOF || md.SignatureError != nil || md.SignedBy == nil {
+					r.viol(sigFor("pgp-go-rejects-gpg:textmsg"), fmt.Sprintf("a text-mode signed message by GnuPG does not verify when read %d bytes at a time: %v %v", rs, rerr, md.SignatureError),
+						map[string]any{"text": tn, "readSize": rs})
+				} else {
+					r.cnt["go_accepts_gpg_textmsg"]++
+				}
+			}
 		}
 	}
 }
